@@ -27,3 +27,22 @@ package proxy
 //@   ensures implies(result == nil && r.Body != old(r.Body), r.ContentLength == len(in(r.Body)) && header(r.Header, "Content-Length") == itoa(len(in(r.Body))) && header(r.Header, "Content-Encoding") == old(header(r.Header, "Content-Encoding")))
 // an error leaves the headers alone
 //@   ensures implies(result != nil, headers(r.Header) == old(headers(r.Header)) && r.ContentLength == old(r.ContentLength))
+
+// HTMX requests: the response is marked so that modifyResponse leaves it alone; other responses are not touched.
+//@ func (*roundTripper) setShouldSkipResponseModificationHeader [C20]
+//@   requires r != nil && resp != nil && r.Header != nil && resp.Header != nil
+//@   modifies *
+//@   ensures implies(old(header(r.Header, "HX-Request")) == "true", header(resp.Header, "templ-skip-modify") == "true")
+//@   ensures implies(old(header(r.Header, "HX-Request")) != "true", headers(resp.Header) == old(headers(resp.Header)))
+
+// the reload script element: a script with the fixed source, carrying the nonce exactly when there is one
+//@ func reloadScript [C20]
+//@   ensures result != nil && result.Data == "script" && len(result.Attr) == ite(nonce == "", 1, 2) && result.Attr[0].Key == "src" && result.Attr[0].Val == "/_templ/reload/script.js"
+//@   ensures implies(nonce != "", result.Attr[1].Key == "nonce" && result.Attr[1].Val == nonce)
+
+// a document that cannot be parsed or has no body element is returned as it is
+//@ func insertScriptTagIntoBody [C20]
+//@   ensures implies(err != nil, updated == body)
+
+// parseNonce: no index or slice panic on any header value
+//@ func parseNonce [C20]
